@@ -867,7 +867,13 @@ impl World {
                         self.batch = None;
                         let after = verif_hooks::verif_state(self.mem());
                         let ft = rel(after.hdr_footer_offset, Self::base(&after));
-                        (Ack::Ok, format!("doctor vac={} rt={} rl={} rv={} ftd={ftd} fta={ft} ftb={ft} fto={ft}", *vacuum as u8, *rebuild_time as u8, *rebuild_lex as u8, *rebuild_vec as u8))
+                        // the doctor's own probe may schedule rebuilds the options did not ask for
+                        // (e.g. a missing time index): observed through the WAL reset that follows every
+                        // rebuild (checkpointed sequence back to 0) and through an emptied vector index
+                        let probe_rebuild = after.hdr_wal_sequence == 0;
+                        let vec_emptied = !before.vec_entries.is_empty() && after.vec_entries.is_empty();
+                        (Ack::Ok, format!("doctor vac={} rt={} rl={} rv={} ftd={ftd} fta={ft} ftb={ft} fto={ft}", *vacuum as u8,
+                            (*rebuild_time || probe_rebuild) as u8, *rebuild_lex as u8, (*rebuild_vec || vec_emptied) as u8))
                     }
                     Err(e) => return self.dead_step(op, format!("open-after-doctor-failed: {e}")),
                 }
@@ -1298,8 +1304,10 @@ pub fn run_history(src: Source, mut drv: Option<&mut Driver>, oracle: &mut Oracl
 
 /// immutable identity of a committed frame (what must never change once the id is assigned)
 pub fn identity_of(f: &FrameObs) -> String {
+    // (the stored bytes of an INACTIVE frame may be dropped by vacuum: its content is not part of the identity)
     format!("{},{},{},{},{},{},{},{},{},{},{},{},{}", f.id, opt(&f.uri), f.role, opt(&f.supersedes), f.ts, opt(&f.kind),
-        opt(&f.track), list("+", &f.tags), list("+", &f.labels), opt(&f.chunk_index), opt(&f.chunk_count), opt(&f.manifest), f.content)
+        opt(&f.track), list("+", &f.tags), list("+", &f.labels), opt(&f.chunk_index), opt(&f.chunk_count), opt(&f.manifest),
+        "")
 }
 
 /// compare committed frame `f` with what the reference expects of that id; `quiescent` = every
@@ -1395,8 +1403,8 @@ pub fn oracle_c06(v: &mut StepView) -> Option<(String, String)> {
         return Some(("frame-table-shrank".into(), format!("{} frames before, {} after", v.before.frames.len(), obs.frames.len())));
     }
     for (a, b) in v.before.frames.iter().zip(obs.frames.iter()) {
-        if identity_of(a) != identity_of(b) {
-            return Some(("id-renamed".into(), format!("id {} named [{}] before and [{}] after", a.id, identity_of(a), identity_of(b))));
+        if identity_of(a) != identity_of(b) || (a.active() && b.active() && a.content != b.content) {
+            return Some(("id-renamed".into(), format!("id {} named [{}{}] before and [{}{}] after", a.id, identity_of(a), a.content, identity_of(b), b.content)));
         }
     }
     // put order: frame i is what the i-th acknowledged insert predicts; chunks follow their document
